@@ -8,7 +8,7 @@ from harness.engine import ImplError
 from harness.plans import plan
 
 ID = "C14"
-CORES = ["dist_sample", "gf_simulate", "gf_call", "sample_shape", "adev_site", "site_after_ops"]
+CORES = ["dist_sample", "gf_simulate", "gf_call", "sample_shape", "adev_site", "site_after_ops", "site_after_calls", "adev_site_after_calls"]
 WRAPS = ["jit", "scan", "while", "fori", "cond", "switch", "grad", "value_and_grad", "vmap", "jit2", "checkpoint", "custom_jvp", "map", "modular_vmap"]
 SEEDS = ["none", "outer", "inner"]
 
@@ -34,6 +34,14 @@ def core_fn(core):
         return lambda x: normal_reparam(x, 1.0)
     if core == "site_after_ops":  # parameterised deterministic equations (pow, reductions, casts) precede the site
         return lambda x: normal.sample(jnp.sum(jnp.stack([x, x]) ** 2).astype(jnp.float32) + 1.0, 1.0) * 1.0
+    if core == "site_after_calls":  # equations that carry sub-jaxprs (jitted library functions, a cond) precede the site
+        import jax
+
+        return lambda x: normal.sample(jnp.clip(x, -5.0, 5.0) + jnp.where(x > 0, x, 0.5 * x) + jax.lax.cond(x > 9.0, lambda v: v, lambda v: 0.0 * v, x), 1.0) * 1.0
+    if core == "adev_site_after_calls":
+        import jax
+
+        return lambda x: normal_reparam(jnp.clip(x, -5.0, 5.0) + 0.0 * jax.nn.softplus(x), 1.0) * 1.0
     raise ValueError(core)
 
 
